@@ -391,7 +391,7 @@ func TestVerif_C22(t *testing.T) {
 			return
 		}
 		recs.Write(map[string]any{"kind": "mono", "src": "data", "n": len(in), "pa": a.polr, "pb": b.polr, "pas": p.String(), "pbs": q.String(),
-			"ka": a.keep, "kb": b.keep, "sn": a.rec["sn"]})
+			"ka": a.keep, "kb": b.keep})
 		res.Count("mono_pairs", 1)
 	}
 	mk := func(k int, tg []string) vc22Snap { return vc22Snap{inst: k + 1, tm: inst[k].tm, tags: tg} }
